@@ -141,7 +141,7 @@ Proof.
       try (destruct (IH _ _ _ _ _ _ _ E) as [Hx2 Hall];
            split; [eapply ext_trans; eauto|];
            intros t' [<-|Hin]; [|now apply Hall];
-           destruct Hw as [[e He]|Hw]; [discriminate | eapply ext_handed; eauto]).
+           destruct Hw as [[? He]|Hw]; [discriminate | eapply ext_handed; eauto]).
 Qed.
 
 Theorem stop_cancels_all sc s c v s' v' sc' :
